@@ -70,7 +70,7 @@ func (h *history) inPool(ctx int, v tval) bool {
 
 func (h *history) detail(e *event, extra map[string]interface{}) map[string]interface{} {
 	m := map[string]interface{}{
-		"history": h.p.idx, "store": h.p.kind.name(), "bolt_nosync": h.p.nosync, "mode": h.p.mode, "goroutines": h.p.G, "maintenance": h.p.maint, "maintenance_via_cli": h.p.cli,
+		"history": h.p.idx, "store": cfgName(h.p.kind, h.p.gran), "access_time_granularity": granName(h.p.gran), "bolt_nosync": h.p.nosync, "mode": h.p.mode, "goroutines": h.p.G, "maintenance": h.p.maint, "maintenance_via_cli": h.p.cli,
 		"replay": fmt.Sprintf("VERIF_SEED=%d ./check C10 %s (history %d)", h.r.Seed, h.r.Tier, h.p.idx),
 	}
 	if e != nil {
@@ -145,6 +145,12 @@ func (h *history) evaluatePhase(ph *phase, evs []*event) {
 	r := h.r
 	p := h.p
 	kind := p.kind.name()
+	// histories on a store with a non-default access-time granularity name that configuration in every signature
+	cfg := ""
+	if p.gran != "" {
+		cfg = " store-config=" + cfgName(p.kind, p.gran)
+	}
+	viol := func(sig string, detail interface{}) { r.Violation(sig+cfg, detail) }
 	r.Count("events", int64(len(evs)))
 	type part struct {
 		ctx int
@@ -165,7 +171,7 @@ func (h *history) evaluatePhase(ph *phase, evs []*event) {
 		}
 		// --- no call may panic
 		if e.pan != nil {
-			r.Violation(fmt.Sprintf("panic in %s: layer=%s type=%s len=%s site=%s class=%s", e.op, lname, typeName(e.in.typ), e.in.lenClass(), e.pan.site, e.pan.class),
+			viol(fmt.Sprintf("panic in %s: layer=%s type=%s len=%s site=%s class=%s", e.op, lname, typeName(e.in.typ), e.in.lenClass(), e.pan.site, e.pan.class),
 				h.detail(e, map[string]interface{}{"stack": e.pan.stack}))
 			continue
 		}
@@ -190,7 +196,7 @@ func (h *history) evaluatePhase(ph *phase, evs []*event) {
 				case (cl == "ErrGenerationRandomValue" || (cl == "ErrTokenize" && e.layer == lTranslator)) && tokenSpaceSmall(e.in):
 					r.Count("exhaustion_errors_on_small_token_space", 1)
 				default:
-					r.Violation(fmt.Sprintf("unexpected error: op=tokenize layer=%s type=%s len=%s mode=%s encrypting-wrapper=%v class=%s", lname, typeName(e.in.typ), e.in.errLenClass(), modeName(e.consistent), p.kind.enc, cl), h.detail(e, nil))
+					viol(fmt.Sprintf("unexpected error: op=tokenize layer=%s type=%s len=%s mode=%s encrypting-wrapper=%v class=%s", lname, typeName(e.in.typ), e.in.errLenClass(), modeName(e.consistent), p.kind.enc, cl), h.detail(e, nil))
 				}
 				continue
 			}
@@ -198,16 +204,16 @@ func (h *history) evaluatePhase(ph *phase, evs []*event) {
 			r.Count("format_checked", 1)
 			r.Count("format_checked:"+typeName(e.in.typ), 1)
 			if e.problem != "" {
-				r.Violation(fmt.Sprintf("format: %s: layer=%s type=%s", e.problem, lname, typeName(e.in.typ)), h.detail(e, nil))
+				viol(fmt.Sprintf("format: %s: layer=%s type=%s", e.problem, lname, typeName(e.in.typ)), h.detail(e, nil))
 				continue
 			}
 			if !isInt(e.in.typ) && len(e.out.s) != len(e.in.s) {
-				r.Violation(fmt.Sprintf("format: token length differs from value length: layer=%s type=%s len=%s", lname, typeName(e.in.typ), e.in.lenClass()), h.detail(e, nil))
+				viol(fmt.Sprintf("format: token length differs from value length: layer=%s type=%s len=%s", lname, typeName(e.in.typ), e.in.lenClass()), h.detail(e, nil))
 			}
 			if e.in.typ == common.TokenType_Email && emailShaped(e.in.s) {
 				r.Count("email_shape_checked", 1)
 				if !emailShaped(e.out.s) {
-					r.Violation(fmt.Sprintf("format: e-mail-shaped value got a token that is not e-mail-shaped: layer=%s len=%s", lname, e.in.lenClass()), h.detail(e, nil))
+					viol(fmt.Sprintf("format: e-mail-shaped value got a token that is not e-mail-shaped: layer=%s len=%s", lname, e.in.lenClass()), h.detail(e, nil))
 				}
 			}
 			if e.out.equal(e.in) {
@@ -217,7 +223,7 @@ func (h *history) evaluatePhase(ph *phase, evs []*event) {
 			lk := liveKey(e.ctx, e.out)
 			r.Count("injectivity_tokens_checked", 1)
 			if prev, ok := h.live[lk]; ok && !prev.equal(e.in) {
-				r.Violation(fmt.Sprintf("injectivity: two different values share a token within one client context: type=%s len=%s", typeName(e.in.typ), e.in.lenClass()),
+				viol(fmt.Sprintf("injectivity: two different values share a token within one client context: type=%s len=%s", typeName(e.in.typ), e.in.lenClass()),
 					h.detail(e, map[string]interface{}{"other_value_with_this_token": prev.full()}))
 			} else {
 				h.live[lk] = e.in
@@ -229,7 +235,7 @@ func (h *history) evaluatePhase(ph *phase, evs []*event) {
 		// reader: the token itself, no error; once enabled back its owner gets the original again (disabled.go)
 		if dlk := liveKey(e.ctx, e.in); (e.relaxed && h.disabledK[dlk]) || (!e.relaxed && e.role == "owner" && h.reenabled[dlk]) {
 			e := e
-			obs := detokObs{store: kind, l: e.layer, tok: e.in, val: e.want, known: e.hasWant && e.role == "owner", out: e.out, prob: e.problem, err: e.err}
+			obs := detokObs{store: kind, cfg: cfgName(p.kind, p.gran), l: e.layer, tok: e.in, val: e.want, known: e.hasWant && e.role == "owner", out: e.out, prob: e.problem, err: e.err}
 			via := "concurrent-calls"
 			if ph.sweep {
 				via = "sweep"
@@ -244,11 +250,11 @@ func (h *history) evaluatePhase(ph *phase, evs []*event) {
 		}
 		if e.err != nil {
 			// also while other tokens are disabled: a detokenize call has no documented reason to fail
-			r.Violation(fmt.Sprintf("unexpected error: op=detokenize role=%s layer=%s type=%s class=%s", e.role, lname, typeName(e.in.typ), errClass(e.err)), h.detail(e, nil))
+			viol(fmt.Sprintf("unexpected error: op=detokenize role=%s layer=%s type=%s class=%s", e.role, lname, typeName(e.in.typ), errClass(e.err)), h.detail(e, nil))
 			continue
 		}
 		if e.problem != "" {
-			r.Violation(fmt.Sprintf("format: detokenize %s: layer=%s type=%s", e.problem, lname, typeName(e.in.typ)), h.detail(e, nil))
+			viol(fmt.Sprintf("format: detokenize %s: layer=%s type=%s", e.problem, lname, typeName(e.in.typ)), h.detail(e, nil))
 			continue
 		}
 		switch e.role {
@@ -257,7 +263,7 @@ func (h *history) evaluatePhase(ph *phase, evs []*event) {
 			case e.out.equal(e.want):
 				r.Count("owner_detokenize_returned_original", 1)
 			default:
-				r.Violation(fmt.Sprintf("reversibility: owner did not get the original back: layer=%s type=%s len=%s", lname, typeName(e.in.typ), e.want.lenClass()), h.detail(e, nil))
+				viol(fmt.Sprintf("reversibility: owner did not get the original back: layer=%s type=%s len=%s", lname, typeName(e.in.typ), e.want.lenClass()), h.detail(e, nil))
 			}
 		case "foreign":
 			switch {
@@ -266,9 +272,9 @@ func (h *history) evaluatePhase(ph *phase, evs []*event) {
 			case h.inPool(e.ctx, e.out):
 				r.Count("token_also_exists_in_other_context_tolerated", 1)
 			case e.out.equal(e.want):
-				r.Violation(fmt.Sprintf("isolation: detokenize under another client context returned the owner's original: layer=%s type=%s", lname, typeName(e.in.typ)), h.detail(e, nil))
+				viol(fmt.Sprintf("isolation: detokenize under another client context returned the owner's original: layer=%s type=%s", lname, typeName(e.in.typ)), h.detail(e, nil))
 			default:
-				r.Violation(fmt.Sprintf("isolation: detokenize under another client context returned neither the token nor a value of that context: layer=%s type=%s", lname, typeName(e.in.typ)), h.detail(e, nil))
+				viol(fmt.Sprintf("isolation: detokenize under another client context returned neither the token nor a value of that context: layer=%s type=%s", lname, typeName(e.in.typ)), h.detail(e, nil))
 			}
 		default: // unknown | removed
 			switch {
@@ -277,7 +283,7 @@ func (h *history) evaluatePhase(ph *phase, evs []*event) {
 			case h.inPool(e.ctx, e.out):
 				r.Count("unknown_token_hit_an_existing_one_tolerated", 1)
 			default:
-				r.Violation(fmt.Sprintf("unknown token: detokenize of a %s token returned something that is neither it nor a value of the context: layer=%s type=%s", e.role, lname, typeName(e.in.typ)), h.detail(e, nil))
+				viol(fmt.Sprintf("unknown token: detokenize of a %s token returned something that is neither it nor a value of the context: layer=%s type=%s", e.role, lname, typeName(e.in.typ)), h.detail(e, nil))
 			}
 		}
 	}
@@ -352,7 +358,7 @@ func (h *history) evaluatePhase(ph *phase, evs []*event) {
 			if hadPrior {
 				what = "calls after an earlier phase fixed the token"
 			}
-			r.Violation(fmt.Sprintf("consistency: tokenize history of one (context,type,value) is not linearizable to 'first call fixes the token': type=%s len=%s", typeName(pt.v.typ), pt.v.lenClass()),
+			viol(fmt.Sprintf("consistency: tokenize history of one (context,type,value) is not linearizable to 'first call fixes the token': type=%s len=%s", typeName(pt.v.typ), pt.v.lenClass()),
 				h.detail(nil, map[string]interface{}{"different_tokens": len(tokens) + boolInt(hadPrior && !tokens[prior.key()]), "value": pt.v.full(), "client": string(clientIDs[pt.ctx]), "what": what, "token_fixed_earlier": map[bool]string{true: prior.show(), false: ""}[hadPrior], "calls": list}))
 		}
 	}
@@ -367,13 +373,13 @@ func (h *history) evaluatePhase(ph *phase, evs []*event) {
 				misses++
 				continue
 			case err != nil:
-				r.Violation(fmt.Sprintf("store content: record of an issued token cannot be read back: type=%s class=%s", typeName(v.typ), errClass(err)), h.detail(nil, map[string]interface{}{"token": tok.full(), "error": err.Error()}))
+				viol(fmt.Sprintf("store content: record of an issued token cannot be read back: type=%s class=%s", typeName(v.typ), errClass(err)), h.detail(nil, map[string]interface{}{"token": tok.full(), "error": err.Error()}))
 				continue
 			}
 			hits++
 			tv, err := common.TokenValueFromData(data)
 			if err != nil || tv.Type != v.typ || !bytes.Equal(tv.Value, v.encoded()) {
-				r.Violation(fmt.Sprintf("store content: record of a token holds another value or type: type=%s", typeName(v.typ)), h.detail(nil, map[string]interface{}{"token": tok.full(), "expected_value": v.full(), "stored": ev.Hex(data)}))
+				viol(fmt.Sprintf("store content: record of a token holds another value or type: type=%s", typeName(v.typ)), h.detail(nil, map[string]interface{}{"token": tok.full(), "expected_value": v.full(), "stored": ev.Hex(data)}))
 				continue
 			}
 			r.Count("store_records_verified", 1)
@@ -386,12 +392,12 @@ func (h *history) evaluatePhase(ph *phase, evs []*event) {
 				misses++
 				continue
 			case err != nil:
-				r.Violation(fmt.Sprintf("store content: consistent-tokenization record cannot be read back: type=%s class=%s", typeName(tok.typ), errClass(err)), h.detail(nil, map[string]interface{}{"value": v.full(), "error": err.Error()}))
+				viol(fmt.Sprintf("store content: consistent-tokenization record cannot be read back: type=%s class=%s", typeName(tok.typ), errClass(err)), h.detail(nil, map[string]interface{}{"value": v.full(), "error": err.Error()}))
 				continue
 			}
 			hits++
 			if !bytes.Equal(data, tok.encoded()) {
-				r.Violation(fmt.Sprintf("store content: consistent-tokenization record holds another token than the calls returned: type=%s", typeName(tok.typ)), h.detail(nil, map[string]interface{}{"value": v.full(), "token_returned": tok.full(), "stored": ev.Hex(data)}))
+				viol(fmt.Sprintf("store content: consistent-tokenization record holds another token than the calls returned: type=%s", typeName(tok.typ)), h.detail(nil, map[string]interface{}{"value": v.full(), "token_returned": tok.full(), "stored": ev.Hex(data)}))
 				continue
 			}
 			r.Count("store_records_verified", 1)
@@ -399,13 +405,13 @@ func (h *history) evaluatePhase(ph *phase, evs []*event) {
 		r.Count("store_lookup_hit", int64(hits))
 		r.Count("store_lookup_miss", int64(misses))
 		if misses > 0 && hits > 0 {
-			r.Violation("store content: record of an issued token is missing", h.detail(nil, map[string]interface{}{"missing": misses, "found": hits}))
+			viol("store content: record of an issued token is missing", h.detail(nil, map[string]interface{}{"missing": misses, "found": hits}))
 		}
 		total, _, err := h.rig.recordCount()
 		if err == nil {
 			need := len(h.live) + len(h.fixed)
 			if misses == 0 && total < need {
-				r.Violation("store content: fewer records than issued tokens and consistent values", h.detail(nil, map[string]interface{}{"records": total, "needed": need}))
+				viol("store content: fewer records than issued tokens and consistent values", h.detail(nil, map[string]interface{}{"records": total, "needed": need}))
 			}
 			r.Count("store_record_counts_checked", 1)
 		}
@@ -420,7 +426,7 @@ func (h *history) evaluatePhase(ph *phase, evs []*event) {
 					}
 				}
 				if !known && n > 0 {
-					r.Violation("store content: BoltDB holds token records outside the three client contexts' buckets", h.detail(nil, map[string]interface{}{"bucket": ev.Hex([]byte(name)), "records": n}))
+					viol("store content: BoltDB holds token records outside the three client contexts' buckets", h.detail(nil, map[string]interface{}{"bucket": ev.Hex([]byte(name)), "records": n}))
 				}
 			}
 			perCtx := map[int]int{}
@@ -434,11 +440,11 @@ func (h *history) evaluatePhase(ph *phase, evs []*event) {
 			}
 			for c, need := range perCtx {
 				if misses == 0 && bk[string(ctxBucket(c))] < need {
-					r.Violation("store content: a client context's BoltDB bucket holds fewer records than that context's tokens", h.detail(nil, map[string]interface{}{"client": string(clientIDs[c]), "records": bk[string(ctxBucket(c))], "needed": need}))
+					viol("store content: a client context's BoltDB bucket holds fewer records than that context's tokens", h.detail(nil, map[string]interface{}{"client": string(clientIDs[c]), "records": bk[string(ctxBucket(c))], "needed": need}))
 				}
 			}
 			if err == nil && sum != total {
-				r.Violation("store content: metadata visitor and direct BoltDB iteration disagree on the number of records", h.detail(nil, map[string]interface{}{"visitor": total, "bolt": sum}))
+				viol("store content: metadata visitor and direct BoltDB iteration disagree on the number of records", h.detail(nil, map[string]interface{}{"visitor": total, "bolt": sum}))
 			}
 			r.Count("boltdb_files_iterated", 1)
 		}
